@@ -225,6 +225,10 @@ def body_var(case):
           observed=dict(got=Bv.tolist(), expected=exp_var.tolist()))
     col = Ep.sum(axis=0)
     captol = 1e-4 if high else 2e-2
+    if case.get("batch_size") is not None and not high:
+        # default accuracy is relative to the whole stacked problem: a far out-of-gamut target in the same batch (error 26) costs the
+        # in-gamut one about 1e-3 of that
+        captol += 2e-3 * float(np.max(eos))
     for i, b in enumerate(B):
         xo, eo = refs[i]
         x = np.clip(X[i], sv.lb, sv.ub)
